@@ -4,11 +4,17 @@
 #include <stdarg.h>
 extern long vf_alloc_calls, vf_alloc_fail_at, vf_alloc_fail_at2;
 extern int vf_alloc_failed;
+/* libyaml parsers (0), emitters (1), documents (2) initialised and not
+   deleted; vf_yaml_forget drops the record */
+extern int vf_yaml_live(int kind);
+extern void vf_yaml_forget(void);
+extern int vf_alloc_mode;	/* 0: libvna sites fail, 1: libyaml sites fail */
 extern void vf_free(void *p);
 extern long vf_live(int origin);
 extern long vf_live_total(void);
 extern unsigned long vf_alloc_mark(void);
 extern int vf_leak_report(unsigned long mark, char *buf, size_t n);
+extern int vf_leak_count_origin(unsigned long mark, int origin);
 extern void vf_leak_discard(unsigned long mark);
 extern void vf_fault_reset(void);
 #endif
